@@ -251,11 +251,31 @@ struct Runner
     (void)any_stale_gone;
     // (1) owners
     for (int j = 0; j < NO; j++) {
-      if (owner_stale[j]) continue; // not judged: its sandbox incarnation is gone
+      if (owner_stale[j]) {
+        // its sandbox incarnation is gone (destroy_sandbox, here followed by a new create_sandbox): the registration ended with
+        // it, so the object is not a registered owner any more and must not hand out an entry point of the new incarnation
+        // (where the slot may belong to another function by now)
+        bool claims = !owner[j]->is_unregistered();
+        uint64_t ep = 0;
+        bool ab = mon::aborts([&] { ep = static_cast<uint64_t>(reinterpret_cast<uintptr_t>((void*)(uintptr_t)owner[j]->UNSAFE_sandboxed(*sb))); });
+        if (claims || (!ab && ep != 0)) {
+          fail(shape, "owner-of-an-earlier-incarnation-claims-registered",
+               mon::fmt("owner %d registered f%d before destroy_sandbox; in the new incarnation is_unregistered()==%s and UNSAFE_sandboxed yields entry point %llu", j, owner_fn[j], claims ? "false" : "true", (unsigned long long)ep));
+          return false;
+        }
+        n_call_ok++;
+        continue;
+      }
       bool live = owner_fn[j] >= 0;
       if (owner[j]->is_unregistered() != !live) {
         fail(shape, live ? "live-owner-claims-unregistered" : "inert-owner-claims-registered", mon::fmt("owner %d (model: %s)", j, live ? "owns a registration" : "empty"));
         return false;
+      }
+      if (!live) {
+        // an inert owner (never registered, unregistered, moved from) hands out no entry point: the slot it once had may
+        // belong to another function by now
+        uint64_t ep = static_cast<uint64_t>(reinterpret_cast<uintptr_t>((void*)(uintptr_t)owner[j]->UNSAFE_sandboxed(*sb)));
+        if (ep != 0) { fail(shape, "inert-owner-hands-out-an-entry-point", mon::fmt("owner %d is unregistered, UNSAFE_sandboxed yields %llu", j, (unsigned long long)ep)); return false; }
       }
       if (live) {
         if (owner[j]->UNSAFE_sandboxed(*sb) == 0) { fail(shape, "registered-owner-with-null-entry-point", mon::fmt("owner %d", j)); return false; }
